@@ -18,12 +18,12 @@ CHECKS = {
   "DESIGN.md §4.1 §6 C03"),
  "C09": ("bfs+sched", "model_checking",
   "explicit-state search over send/clock/reload histories through the real ingress handler and real reloadConfig in a virtual-time bubble, plus exhaustive interleavings of concurrent duplicates and a reload under the controlled scheduler",
-  "Every history up to the depth over valid/invalid/duplicate signed requests (2 nonces, 2 signed timestamps), clock moves through 12 positions at and around ts-tol, ts, ts+tol, ts+2tol, ts+3tol (+/-1 ns) and reloads (same file, doubled tolerance) is run through the handler wired by startServers; a (nonce, signed timestamp) pair may be honoured at most once while it passes the tolerance check in force, and stored messages must equal 202 answers. Every interleaving of two identical signed requests with a concurrent reload is enumerated as well.",
+  "Every history (the state space is finite once the state is keyed by clock position, tolerance in force, nonce caches and the set of honoured pairs; the search runs to its fixpoint, depth 19) over valid/invalid/duplicate signed requests (2 nonces, 2 signed timestamps), clock moves through 12 positions at and around ts-tol, ts, ts+tol, ts+2tol, ts+3tol (+/-1 ns) and reloads (same file, doubled tolerance) is run through the handler wired by startServers; a (nonce, signed timestamp) pair may be honoured at most once while it passes the tolerance check in force, and stored messages must equal 202 answers. Every interleaving of two identical signed requests with a concurrent reload is enumerated as well; a free-running -race side pass covers unsynchronised sharing between reload and requests.",
   "Narrow reading of the statement (same nonce AND same signed timestamp); reload keeps the route HMAC-protected; virtual time via testing/synctest.",
   "DESIGN.md §6 C09"),
  "C12": ("bfs+enum", "model_checking",
   "explicit-state search of store admission for every max_depth/policy/backend with an independent admission monitor, plus complete enumeration of limiter arrival sequences and size-limit boundaries through the real ingress handler",
-  "(A) every store operation sequence up to the depth for max_depth 1..3 x reject/drop_oldest x memory/SQLite with a monitor that looks only at contents before/after each enqueue (admitted only below max_depth, one queued-never-leased eviction per stored message, refusal = identical contents); (B) every arrival sequence of length <= 6/8 over gaps {0,1/4,1/2,1,2 s} for 5 limiter configurations incl. route override, every window checked against burst + rps x span; (C) every body/header size around max_body/max_headers and every fan-out refusal position.",
+  "(A) every store operation sequence up to the depth for max_depth 1..3 x reject/drop_oldest x memory/SQLite with a monitor that looks only at contents before/after each enqueue (admitted only below max_depth, one queued-never-leased eviction per stored message, refusal = identical contents); (B) every arrival sequence of length <= 6/8 over gaps {0,1/4,1/2,1,2 s} for 5 limiter configurations incl. route override, every window checked against burst + rps x span; (C) every body/header size around max_body/max_headers and every fan-out refusal position, and the same boundary tables after a production reload for every ordered pair of three limit configurations (route overrides lowered/raised, a route added/removed, a route falling back to defaults); (D) concurrent admissions under the controlled scheduler incl. two enqueues racing for a slot freed by an ack right after a refusal, and concurrent requests on one rate limiter.",
   "Memory-pressure refusals (> 1000 retained items) are outside the small scope; rate arithmetic exact by construction of the alphabet; histories above max_depth after operator requeue are excluded as the quantifier says.",
   "DESIGN.md §6 C12"),
  "C13": ("bfs", "model_checking",
@@ -38,7 +38,7 @@ CHECKS = {
   "DESIGN.md §6 C14"),
  "C18": ("sched", "model_checking",
   "stateless model checking of the real reloadConfig against one in-flight request under the controlled scheduler, differential oracle (result under old only / new only from sequential reference runs)",
-  "For each old/new configuration pair chosen to make a mixture observable (auth kind switched on one route, route removed/added, pull endpoints swapped between routes, limits lowered) every interleaving of the real reloadConfig with one ingress or pull request, at the lock operations of the runtime state, stores and servers, is executed on the handlers wired by the real startServers; the request's status and effects must equal the result under the old configuration only or under the new configuration only.",
+  "For each old/new configuration pair chosen to make a mixture observable (auth kind switched on one route, route removed/added, pull endpoints swapped between routes, limits lowered) every interleaving of the real reloadConfig with one ingress or pull request, at the lock operations of the runtime state, stores and servers, is executed on the handlers wired by the real startServers; the request's status and effects must equal the result under the old configuration only or under the new configuration only, and the same request sent once more after everything finished must be answered as a sequential reference run answers it (stale per-request caches). A management mutation (move / delete of a managed endpoint through the Admin API) is explored against an ingress request on the route it currently maps to: the answer, the configuration file and the running gateway must agree (applied entirely or not at all). Crash points inside every config-file replacement flow (Admin upsert/delete, MCP config_apply) and every reload failure variant are enumerated by the other parts.",
   "Scheduling points at lock operations (data-race freedom is a side condition); crash-atomicity of the config file replacement and failure => unchanged are decided by the fault-enumeration parts when present in the evidence.",
   "DESIGN.md §6 C18"),
  "C19": ("enum", "exploration",
@@ -75,7 +75,7 @@ CHECKS = {
 
  "C04": ("bfs", "model_checking",
   "explicit-state search over dequeue / lease-operation / operator / clock histories through the real pull HTTP handler (wired by startServers) on memory and SQLite in a virtual-time bubble, validated against qmodel plus the idempotent-duplicate rule",
-  "Every history up to the depth over dequeue (batch 1/2), ack / nack / dead-letter / extend with each of the newest lease ids and an unknown id, batch ack/nack with duplicate, stale and unknown ids mixed with valid ones, operator cancel/requeue and clock steps (+1 ns, +1 s, +ttl, +ttl+1 s, to the end of the idempotency window - 1 ns) is executed through the pull API; a call with a non-current or expired lease must change nothing except returning an expired message to the queue and must answer 409 unless an identical operation on that lease succeeded less than RecentLeaseOpTTL ago, in which case the duplicate answer is allowed and must have no effect; batches are judged per lease id; the full listing is compared after every step.",
+  "Every history up to the depth over dequeue (batch 1/2), ack / nack / dead-letter / extend with each of the newest lease ids and an unknown id, batch ack/nack with duplicate, stale and unknown ids mixed with valid ones, operator cancel/requeue and clock steps (+1 ns, +1 s, +ttl, +ttl+1 s, to the end of the idempotency window - 1 ns) is executed through the pull API; a call with a non-current or expired lease must change nothing except returning an expired message to the queue and must answer 409 unless an identical operation on that lease succeeded less than RecentLeaseOpTTL ago, in which case the duplicate answer is allowed and must have no effect; batches are judged per lease id; the full listing is compared after every step. Restart-focus jobs add a restart of the gateway through the production boot path (SQLite: nothing may change, a held lease stays the holder's; memory: the store starts empty and every lease id a worker still holds is foreign) and fresh enqueues as operations. A schedule part explores overlapping duplicate and stale settlements; a free-running -race side pass covers unsynchronised sharing.",
   "Operator mutations go through the Store; the gRPC status mapping is a thin switch over the same operations; small scope: 2 messages, 3 newest leases.",
   "DESIGN.md §6 C04"),
  "C10": ("enum", "exploration",
@@ -86,7 +86,7 @@ CHECKS = {
 
  "C05": ("bfs+sched+crash", "model_checking",
   "explicit-state search over readiness histories with a nanosecond clock grid on both backends (qmodel + independent readiness monitor), exhaustive interleavings of consumers racing across a lease expiry, and crash-point enumeration while messages are leased",
-  "(1) Every store operation sequence up to the depth over enqueue (incl. future next_run_at), dequeue with every filter and batch sizes 1/2/3/100/101, nack with delay 0 and 5 s, extend, operator requeue/cancel and clock steps that land exactly on, 1 ns before and 10 ms-1 ns / 10 ms after every due instant, on memory and SQLite: nothing is offered before it is due, every dequeue returns exactly min(batch, ready) items, and everything due for at least the sweep granularity is ready. (2) Every interleaving within the preemption bound of two consumers on two routes racing across a lease expiry (the SQLite sweep-throttle compare-and-swap inside the transaction), linearizable against qmodel. (3) SIGKILL before every file-mutating syscall of lease-centred histories, restart through the production path, every unsettled message offered again exactly once after its lease expired.",
+  "(1) Every store operation sequence up to the depth over enqueue (incl. future next_run_at), dequeue with every filter and batch sizes 1/2/3/100/101, nack with delay 0 and 5 s, extend, operator requeue/cancel and clock steps that land exactly on, 1 ns before and 10 ms-1 ns / 10 ms after every due instant, on memory and SQLite: nothing is offered before it is due, every dequeue returns exactly min(batch, ready) items, and everything due for at least the sweep granularity is ready. (2) Every interleaving within the preemption bound of two consumers on two routes racing across a lease expiry (the SQLite sweep-throttle compare-and-swap inside the transaction), linearizable against qmodel. (3) SIGKILL before every file-mutating syscall of lease-centred histories, restart through the production path, every unsettled message offered again exactly once after its lease expired, and no lease acknowledged before the crash offered to anybody else right after the restart. The searches also start from non-initial populations (a dead / settled / canceled / delayed / expired-lease message next to live ones) with settlements incl. batch forms and every operator transition that makes a parked message ready again; the memory searches run with the order-list compaction thresholds lowered so that compactions happen inside the histories; on SQLite a restart on the same file is an operation.",
   "SQLite's documented 10 ms sweep granularity is the allowed delay; monotonic clock; process death only; Postgres not executed.",
   "DESIGN.md §6 C05"),
  "C15": ("enum", "exploration",
